@@ -703,3 +703,37 @@ S('c08-checks-reordered', ['C08'], [(SCANNER,
             return top_trash_dir_valid
         return top_trash_dir_invalid_because_not_sticky""")],
   'read-side checks reordered')
+
+# ------------------------------------------------------------------ C16
+CONTEXT = 'trashcli/put/context.py'
+INFOCREATOR = 'trashcli/put/janitor_tools/info_creator.py'
+F('c16-break-on-failure', {'C16': ['R16.1']}, [(CONTEXT,
+  "                failed_paths.append(path)\n", "                failed_paths.append(path)\n                break\n")],
+  'stop at the first failing argument')
+F('fix12-reverted', {'C16': ['R16.2']}, [(INFOCREATOR,
+  "        except (IOError, OSError, UnicodeError) as error:", "        except (IOError, OSError) as error:")],
+  'UnicodeError no longer converted')
+F('c16-handler-narrowed', {'C16': ['R16.2'], 'C17': ['R17.2']}, [('trashcli/put/janitor_tools/trash_dir_creator.py',
+  "        except (IOError, OSError) as error:", "        except FileNotFoundError as error:")],
+  'mkdir errors other than ENOENT escape')
+F('c16-failure-not-logged', {'C16': ['R16.3']}, [(FILE_TRASHER,
+  "        self.logger.log_put(self.reporter.unable_to_trash_file(\n            trashee, failures, context.environ), context.log_data)\n        return TrashResult.Failure",
+  "        return TrashResult.Failure")], 'failure returned without a diagnostic')
+F('c16-counter-on-self', {'C16': ['R16.4']}, [(TRASHER,
+  "        return self.file_trasher.trash_file(path, context)",
+  "        self.seen = getattr(self, 'seen', 0) + 1\n        if self.seen > 100:\n            return TrashResult.Failure\n        return self.file_trasher.trash_file(path, context)")],
+  'state carried on self between arguments')
+F('c16-failure-not-recorded', {'C16': ['R16.1']}, [(CONTEXT,
+  "            if result == TrashResult.Failure:\n                failed_paths.append(path)",
+  "            if result == TrashResult.Failure and not failed_paths:\n                failed_paths.append(path)")],
+  'only the first failure is recorded (harmless) -- but condition no longer exactly Failure')
+F('c16-exit-code-inverted', {'C16': ['R16.1']}, [('trashcli/put/reporting/trash_put_reporter.py',
+  "        if not result.any_failure():\n            return EX_OK\n        else:\n            return EX_IOERR",
+  "        if result.any_failure():\n            return EX_OK\n        else:\n            return EX_IOERR")],
+  'exit code inverted')
+F('c16-log-level-debug', {'C16': ['R16.3']}, [('trashcli/put/reporting/trash_put_reporter.py',
+  "        return log_str(Level.WARNING, LogTag.trash_failed, messages)", "        return log_str(Level.DEBUG, LogTag.trash_failed, messages)")],
+  'failure diagnostic demoted to DEBUG (invisible without -vv)')
+S('c16-handler-widened', ['C16', 'C17', 'C01'], [(INFOCREATOR,
+  "        except (IOError, OSError, UnicodeError) as error:", "        except Exception as error:")],
+  'handler widened to Exception')
